@@ -599,12 +599,14 @@ def run_accessors(tier, seed, rep, cls_name="full", pid=PID, only=None):
         if sig in rep.violations:
             rep.violations[sig]["what"] = what
             rep.violations[sig]["replay"] = rd
+    modes = sorted({"%s/%s%s" % (it[0]["role"], it[0]["mode"], "+ackpl" if it[0]["ackpl"] else "") for it in items})
     return dict(depth=depth, searches=len(work), cls=cls_name,
-                roots="role {rx: DUT listens on pipes 0/1/5, tx: DUT transmits to a ghost PRX} x payload mode {dynamic+ACK payloads, static"
-                      + ("" if tier == "quick" else ", dynamic without ACK payloads, mixed (pipe 1 static)") + "} x start {empty FIFOs, RX FIFO full / TX FIFO 3 deep after a failed "
-                      "transmission, ACK-payload traffic} x operation group {fifo, flags, irq}",
+                roots="role/payload mode %s (rx: DUT listens on pipes 0/1/5 and is fed by a ghost PTX; tx: DUT transmits to a ghost PRX that "
+                      "acknowledges, attaches ACK payloads, or is deaf; mixed: pipe 1 static, others dynamic) x start {empty FIFOs; RX FIFO full / "
+                      "TX FIFO 3 deep behind a failed transmission; after ACK-payload traffic} x operation group {fifo, flags, irq} x payload-length "
+                      "variant {a,b,c} (dynamic rx searches: the 9 pipe x length combinations are spread over 3 alphabets)" % ", ".join(modes),
                 fifo_occupancy="0..3 payloads per FIFO (a 4th arrival is dropped by the radio and explored too)",
-                payloads="lengths {1,5,32} on pipes {0,1,5}; static lengths 5/32/1 on pipes 0/1/5")
+                payloads="lengths {1,5,32} on pipes {0,1,5}; static lengths 5/32/1 on pipes 0/1/5 (lite: 5 everywhere)")
 
 
 def run(tier, seed, rep, only=None):
